@@ -16,7 +16,8 @@ EXPLANATION = (
     "otherwise it is a comparison of program-derived text; (R3) no table of program names is keyed "
     "by a raw String; (R4) keyword / built-in name recognition goes through cmp_str or "
     "eq_ignore_ascii_case; (R5) exactly the CR[LF] and LF line endings are recognised; (R6) the "
-    "lexer never matches an ASCII letter constant exactly.")
+    "lexer never matches an ASCII letter constant exactly; (R7) two characters of program text are "
+    "never compared (order or equality) without case folding.")
 NOT_DECIDED = [
     "equality of parse trees under layout transformations (blanks, comments, colon vs newline)",
     "row counting in create_row_col_view beyond presence of the CR / LF guards",
@@ -290,6 +291,50 @@ def _flows_to_exact_match(prog, callee, arg_index, depth=0):
     return False
 
 
+def r7_char_comparisons(ctx, rule="C09.R7"):
+    """Comparisons between two characters that both come from program text must fold case."""
+    prog = ctx.prog
+    table = json.load(open(os.path.join(VERIF, "tables", "raw_text_compare.json")))
+    allowed = {e["function"]: e["reason"] for e in table.get("char_comparisons_case_free", [])}
+    n = 0
+    for fn in sorted(prog.fns.values(), key=lambda f: f.id):
+        if fn.crate not in ("rusty_parser", "rusty_linter") or fn.kind == "const" or common.is_derived(fn):
+            continue
+        pv = None
+        for blk in fn.body.blocks:
+            for st in blk["s"]:
+                if not (st["k"] == "assign" and st["r"]["k"] == "bin" and st["r"]["op"] in ("Lt", "Le", "Gt", "Ge", "Eq", "Ne")):
+                    continue
+                a, b = st["r"]["a"], st["r"]["b"]
+                if "k" in a or "k" in b:
+                    continue
+
+                def ty(o):
+                    p = mir.op_place(o)
+                    return fn.body.locals[p[0]]["ty"] if p is not None and not p[1] else None
+                if ty(a) != "char" and ty(b) != "char":
+                    continue
+                n += 1
+                pv = pv or mir.Prov(fn.body)
+                oa, ob = pv.of_operand(a), pv.of_operand(b)
+                folded = all(mir.origin_mentions(o, lambda x: x[0] == "call" and x[1].endswith(
+                    ("to_ascii_uppercase", "to_ascii_lowercase"))) for o in (oa, ob))
+                name = fn.path.split("::", 1)[1]
+                key = "%s:%s:%s" % (rule, name, st["r"]["op"])
+                loc = "%s:%s" % (fn.file, st.get("ln"))
+                if folded:
+                    ctx.ok(rule, key, loc, "both characters folded")
+                elif name in allowed:
+                    ctx.ok(rule, key, loc, "tabled: " + allowed[name])
+                else:
+                    ctx.violation(rule, key, loc,
+                                  "%s compares two characters of the program text (%s %s %s) without "
+                                  "folding their case: the outcome depends on how the letters are spelled"
+                                  % (name, mir.short_origin(oa), st["r"]["op"], mir.short_origin(ob)))
+    ctx.ok(rule, rule + ":scan", "rusty_parser, rusty_linter", "%d char-char comparisons" % n)
+    ctx.require(rule, 2)
+
+
 def run(ctx):
     common.install(ctx)
     r1_folding_pair(ctx)
@@ -298,3 +343,6 @@ def run(ctx):
     r4_keyword_folding(ctx)
     r5_line_endings(ctx)
     r6_lexer_letters(ctx)
+    r7_char_comparisons(ctx)
+    from . import c02
+    c02.r5_label_names_injective(ctx, "C09.R8")
